@@ -79,8 +79,20 @@ def plan(seed, subbatch):
             if op["op"] == "append" and op.get("candles") and rm.random() < 0.3:
                 op["raw_manager"] = True
     fx = sub_rng(seed, "features")
-    if fx.random() < 0.15:
+    converted = fx.random() < 0.15
+    if converted:
         # a candlestick type: converted in place, raw values kept aside - none of which a read may disturb
+        if fx.random() < 0.5:
+            # ... with a member that looks at the candles' own geometry (body, range, shadows)
+            from ..catalogue import PATTERNS, sample_analysis
+
+            pat = fx.choice(PATTERNS)
+            cand = {"cls": "Amorph", "analysis": pat, "params": sample_analysis(fx, pat),
+                    "common": {k: v for k, v in members[-1]["common"].items() if k in ("timeframe", "tf_as_enum", "tf_lower")}}
+            from ..catalogue import member_name
+
+            if member_name(cand) not in {member_name(m) for m in members[:-1]}:
+                members[-1] = cand
         if kind == "hexital":
             hexcfg["candlestick_type"] = "HA"
         else:
@@ -91,7 +103,7 @@ def plan(seed, subbatch):
             "config": {"kind": kind, "members": members, "hexital": hexcfg, "base_s": base_s,
                        "utc_offset_min": offset,
                        # read-only looks at the caller's own Candle objects BEFORE they are handed to append
-                       "candle_pre_read": sub_rng(seed, "candle-pre-read").random() < 0.2,
+                       "candle_pre_read": sub_rng(seed, "candle-pre-read").random() < (0.6 if converted else 0.2),
                        "pre_probe": (sub_rng(seed, "pre-probe").sample(["str", "repr", "settings", "name", "has_reading", "as_list",
                                                                          "reading_count"], 2)
                                      if sub_rng(seed, "pre-probe-p").random() < 0.25 else [])},
